@@ -327,6 +327,7 @@ fn c08_quantified_key_in_rows(ctx: &mut Ctx) {
 }
 
 pub fn run_c08(ctx: &mut Ctx, known: &Known) {
+    crate::suites3::nested_all_with_sibling(ctx, "C08");
     // recorded witnesses first (member lists stored in known_findings.json)
     for f in known.for_prop("C08") {
         if let Some((members, doc)) = known.witness_members(&f.id) {
@@ -2272,6 +2273,7 @@ fn c14_optimised_vs_reloaded(ctx: &mut Ctx, known: &Known, name: &str, c: &CaseR
 
 pub fn run_c14(ctx: &mut Ctx, _known: &Known) {
     let known = _known;
+    crate::suites3::big_identifiers_twice(ctx, "C14");
     for (name, mut c) in corpus_cases() {
         c.masks = vec![0, 15];
         let (ex, _) = run_rule_case(ctx, &c, false);
